@@ -10,9 +10,11 @@ def _fail(O, key, desc, **kw):
 
 
 def configs(rng, tier):
-    combos = [("full",), ("left",), ("right",), ("full", "full"), ("left", "full"), ("left", "right")]
+    # three surfaces belong to the quick tier too: the per-surface offsets into the global panel index are cumulative
+    # only from the third surface on (a seeded change that broke them for >= 3 surfaces was missed without it)
+    combos = [("full",), ("left",), ("right",), ("full", "full"), ("left", "full"), ("left", "right"), ("full", "full", "full")]
     if tier != "quick":
-        combos += [("full", "full", "full"), ("left", "left", "full"), ("right", "full")]
+        combos += [("left", "left", "full"), ("right", "full"), ("left", "full", "left", "full")]
     for kinds in combos:
         reps = 1 if tier == "quick" else 3
         for rep in range(reps):
@@ -20,6 +22,8 @@ def configs(rng, tier):
             for si, kind in enumerate(kinds):
                 sizes = [(2, 3), (3, 3), (2, 5), (3, 5)] if tier == "quick" else [(2, 3), (3, 3), (2, 5), (3, 5), (4, 7), (2, 9), (5, 5)]
                 nx, ny = sizes[int(rng.integers(0, len(sizes)))]
+                if si >= 2 and nx < 3:
+                    nx = 3 + int(rng.integers(0, 2))         # later surfaces with more than one chordwise panel
                 if kind != "full" and rng.integers(0, 2):
                     ny = ny - 1 if ny > 2 else ny
                 mixed = any(k != "full" for k in kinds)
